@@ -12,6 +12,7 @@ mod engine;
 mod exec;
 mod gen;
 mod json;
+mod kindconv;
 mod mat;
 mod ops;
 mod probe;
@@ -689,6 +690,8 @@ fn miri_sanitise(p: &Plan) -> Option<Plan> {
         match op.k {
             OpK::MFromFlat | OpK::MFromNested | OpK::MIntoFlat | OpK::MIntoNested => return None,
             OpK::Forget => *op = Op::new(OpK::Drop),
+            // F10, the source's own destructor panics: the finished vector may be abandoned (R-unwind a)
+            OpK::FromIterStub if op.a % 7 == 6 => op.a = 0,
             // drop-panic annotations (F4): their relaxation legitimately abandons elements
             OpK::Drop | OpK::TakeCount | OpK::RevTakeDrop | OpK::Nth | OpK::NthBack | OpK::Last | OpK::Count => op.f = 0,
             _ => {}
